@@ -7,6 +7,7 @@ import (
 	"fmt"
 	"os"
 	"path/filepath"
+	"sync"
 	"syscall"
 	"testing"
 
@@ -459,5 +460,71 @@ func TestGenerated(t *testing.T) {
 		ev.Label("dst:" + dstNames[s.dst])
 		ev.Label("content:" + patternNames[s.pattern%len(patternNames)])
 		ev.Case(s.nontrivial(), ev.Hash(s.String(), fmt.Sprint(s.salt)), s.String)
+	})
+}
+
+// TestConcurrentCalls: several goroutines copy (or move across file systems) files of their own at the same time.
+// Calls on unrelated files have nothing to do with each other: every one of them gives its own guarantee.
+func TestConcurrentCalls(t *testing.T) {
+	rt.Check(t, 6, 400, func(t *rapid.T) {
+		g := rapid.IntRange(2, 8).Draw(t, "goroutines")
+		size := rapid.SampledFrom([]int{1, 4097, 300 << 10, 1<<20 + 3, 3 << 20}).Draw(t, "size")
+		move := rapid.Bool().Draw(t, "move") && otherFS != ""
+		dir, err := os.MkdirTemp("", "c18c-")
+		if err != nil {
+			t.Fatalf("harness: %v", err)
+		}
+		defer os.RemoveAll(dir)
+		odir := dir
+		if move {
+			if odir, err = os.MkdirTemp(otherFS, "c18c-"); err != nil {
+				t.Fatalf("harness: %v", err)
+			}
+			defer os.RemoveAll(odir)
+		}
+		datas := make([][]byte, g)
+		for i := range datas {
+			datas[i] = content(size+i, uint64(1000+i))
+			if err := os.WriteFile(filepath.Join(dir, fmt.Sprintf("src%d.bin", i)), datas[i], 0o644); err != nil {
+				t.Fatalf("harness: %v", err)
+			}
+		}
+		errs := make([]error, g)
+		var wg sync.WaitGroup
+		start := make(chan struct{})
+		for i := 0; i < g; i++ {
+			wg.Add(1)
+			go func(i int) {
+				defer wg.Done()
+				<-start
+				src, dst := filepath.Join(dir, fmt.Sprintf("src%d.bin", i)), filepath.Join(odir, fmt.Sprintf("dst%d.bin", i))
+				if move {
+					errs[i] = osutil.MoveFile(src, dst)
+				} else {
+					_, errs[i] = osutil.CopyFile(src, dst)
+				}
+			}(i)
+		}
+		close(start)
+		wg.Wait()
+		op := map[bool]string{false: "CopyFile", true: "MoveFile across file systems"}[move]
+		for i := 0; i < g; i++ {
+			if errs[i] != nil {
+				t.Fatalf("%d concurrent %s calls on unrelated files of %d bytes: call %d returned %v", g, op, size, i, errs[i])
+			}
+			got, err := os.ReadFile(filepath.Join(odir, fmt.Sprintf("dst%d.bin", i)))
+			if err != nil || !bytes.Equal(got, datas[i]) {
+				t.Fatalf("%d concurrent %s calls on unrelated files: call %d returned nil but its destination holds %d bytes that differ from the %d bytes of its source (first difference at %d, err=%v)", g, op, i, len(got), len(datas[i]), firstDiff(got, datas[i]), err)
+			}
+			if !move {
+				if got, err := os.ReadFile(filepath.Join(dir, fmt.Sprintf("src%d.bin", i))); err != nil || !bytes.Equal(got, datas[i]) {
+					t.Fatalf("concurrent CopyFile calls: source %d changed (err=%v)", i, err)
+				}
+			}
+		}
+		ev.Label("concurrent_calls:" + op)
+		ev.Case(true, ev.Hash("conc", fmt.Sprint(g, size, move)), func() string {
+			return fmt.Sprintf("%d concurrent %s calls on unrelated files of about %d bytes", g, op, size)
+		})
 	})
 }
